@@ -231,6 +231,23 @@ CLAIMED.update(
     }
 )
 
+CLAIMED.update(
+    {
+        "C04": (
+            "operator/helper table agreement, EXHAUSTIVE complement table per compare kind, argument-binding rule, one-zero path queries, and abstract interpretation of executed_compare_predicate / executed_exception_match by the checker's own evaluator over a partition of operand pairs with Python's operators as oracle",
+            "Decides the table clauses completely (each helper is zero only under its own operator on (val1, val2); every compare kind has the complement pair of the table; every "
+            "_update_metrics call binds like-named parameters; bool and exception-match predicates reassign exactly one distance to a non-zero value on every path; the recorder "
+            "asserts non-negativity and exactly-one-zero) and the numeric clauses over a finite partition: for ~45 representative operand pairs per compare kind (ordered, equal, signed "
+            "zero, NaN, infinities, ints beyond float range, ints closer than the float resolution, bool/int, str, bytes that are not UTF-8, partially ordered sets, mixed types, tuples) "
+            "and 9 exception/clause shapes, the source of executed_compare_predicate and of every helper it calls is interpreted by sa/engine/peval.py and must yield distances that are "
+            "numbers >= 0, not NaN, exactly one zero, the zero one being what Python's operator returns for that pair, raising only where the operator itself raises. Pynguin is never "
+            "imported or run. Behaviour inside a partition cell is assumed uniform; string-distance magnitudes and user classes with partial protocols are not decided.",
+            "Trusts sa/engine/peval.py (a restricted interpreter of the statement kinds used by the helpers), Python's float/int semantics on the representatives, and the CFG builder.",
+            "DESIGN.md §3 C04",
+        ),
+    }
+)
+
 NOT_APPLICABLE: dict[str, str] = {
     "C06": "Correctness of the post-dominator/CDG construction on every code object is functional correctness of a graph "
     "algorithm; no shape of the code implies it and no sound static argument in reach bounds 'all code objects'.",
